@@ -45,7 +45,8 @@ manifest = {
     'checks': checks,
     'not_applicable': na,
     'notes': 'fix: commits in /repo (genuine defects found by these checks, see known_findings.json): '
-             + ', '.join(FIX_COMMITS) if FIX_COMMITS else 'no repository changes yet',
+             + ', '.join(FIX_COMMITS) + '; open findings recorded there and in DESIGN.md section 5: F18, F19 (C12, '
+             'OutputAsync clean-up not bounded by stop_timeout)' if FIX_COMMITS else 'no repository changes yet',
 }
 json.dump(manifest, open(os.path.join(root, 'MANIFEST.json'), 'w'), indent=1)
 print('MANIFEST.json written:', len(checks), 'checks,', len(na), 'not claimed')
